@@ -164,12 +164,54 @@ T["C19"] = ("Lean theorems for all BUF_TOKEN strings and all netrc machine lists
   "Trusted: Lean kernel; hand-written model of bufconnect/netrc/connectclient tied by correspondence; go-netrc's lexer and connect-go not modelled, of net/http only the redirect header rule (compared per hop); 1 recorded finding (netrc VALUE spelled `default`)")
 
 
+# addenda of rounds 5 and 6 (appended to the texts above)
+ADD = {
+ "C01": " Rounds 4-6: wire form (Props/C01Wire: the serialised image decoded per field number equals the model's records); a path-component NAMES family (directories named *.proto, string-prefix siblings, unicode, every spelling of a selection value) through memory, disk and the real binary; workspace-level --path / --exclude-path selections distributed over 2-4 modules (WorkspaceTargeting model, Props/C01Select: selection_never_system_error, module_selection_exact, untargeted_module_ignores_excludes); every DERIVED image (path filter, ImageByDir, without-imports, type filter, plugin requests) closed and ordered, also with unused imports (Props/C01Derived: derived_image_closed)",
+ "C02": " Rounds 5-6: an event machine for Parallelize (parallelize_waits_for_all_dispatched: it returns only after every dispatched job has finished); order clauses of FILTERED images and OVERLAPPING --path values (OrderClauses model: kept imports in old order then gained ones ascending, no file twice, the target set is a function of the path SET); import-cycle and many-problem families through the binary",
+ "C03": " Round 5: 98 operators; enum-value ALIAS family (numbers with 1-3 names; reserving nothing / the number / a range / all names / some names, near-miss variants; silence theorems where the documentation exempts the edit: class C03-spurious-*); scalar type matrix over all ordered type pairs",
+ "C04": " Round 5: the C03 catalogue pairs are evaluated under all four categories x three config versions with a per-subject containment oracle (every annotation of the laxer category is about an element the stricter category reports too; type_rules_ordered_per_field)",
+ "C05": " Round 5: declaration-order and position strata for every element-level rule (first / middle / last / only / index >= 10; Props/C05Order), enum number templates x closedness variants with a documentation-level oracle",
+ "C06": " Round 5: KEY family - every rule id and category of BOTH rule types x use / except / ignore_only x section x version through the real reader, Client and commands (Props/C06Keys: ignore_only_key_of_other_type_rejected, use_/except_key_of_other_type_rejected, lint_breaking_keys_disjoint, ids_are_compared_exactly)",
+ "C07": " Round 6: comment x separator x bracket family of option literals (17 value kinds x separator x gap x layout x depth x option site) and DEGENERATE files (empty, comment-only, BOM, CRLF) through FormatFileNode, FormatBucket and the CLI; comment_only_file_not_emptied, file_comments_preserved; every missing comment classified on its own so recorded classes cannot mask new ones",
+ "C08": " Rounds 4-5: digest HISTORY section (a failed read never changes a later digest) and a UNICODE path family (normalisation twins are distinct keys with distinct digests; invalid UTF-8 and 64 KiB paths; independent SHAKE256 over the literal bytes)",
+ "C09": " Round 5: finished_writer_is_inert (a store performs no primitive after it returned) with late-job histories (gated sibling copies around a failing store, later writers, then release) through the real store",
+ "C10": " Round 5: the BucketID scheme of v2 workspaces is injective for EVERY directory list (Props/C10BucketID: bucketID_v2_injective, no precondition), first-pass and seeded schemes as counterexamples; OpaqueID collision between a module name and a directory path as bid_v2_opaque_collision_counterexample (recorded finding)",
+ "C11": " Round 5: the extension bits of image files (is_syntax_unspecified, unused-dependency indexes remapped, module name and commit, is_import = not a target) are preserved by every operation that rebuilds image files (Props/C11ExtBits), compared through path filter, ImageWithoutImports, ImageByDir, clone, four encodings and the type filter",
+ "C12": " Round 6: options of DROPPED elements add nothing to the closure (Props/C12Dropped) with a minimality oracle computed on the result image alone; buf generate's per-plugin batching key is injective on (types, exclude_types) and every plugin receives the image filtered by ITS filter (Props/C12Batch: key_injective_on_filters, plugin_receives_own_filter; repaired by /repo 1be192b)",
+ "C13": " Round 5: archive ENTRY KINDS (ArchiveKinds model: every tar typeflag / zip mode x hostile names x strip-components; untar_error_iff / unzip_error_iff: extraction fails EXACTLY when some entry of any kind has a refused name - no exception since /repo 36b7500; link names are never read; nothing but regular entries is written) and unicode normalisation twins as distinct keys",
+ "C14": " Round 6: reader handles (Reader model: read_after_overwrite_is_snapshot for memory, disk readers as open descriptors), duplicate archive members (extract_last_member_wins), ancestor-DeleteAll histories with an ACCEPTANCE oracle (an operation the reference map accepts must not fail on any backend)",
+ "C15": " Rounds 4-5: walk callbacks and error kinds; REAL close / write failures on disk buckets (the descriptor closed behind the bucket's back through /proc/self/fd at every position of every helper; real_plain_put_is_wrapper_fault ties them to the model's close fault; a second Close is ErrClosed)",
+ "C16": " Round 6: the RULE SELECTION part of `buf config migrate` modelled on the regenerated rule tables (Props/C16Migrate*: migrate_preserves_selected_rules with its exact decidable exception, migrate_preserves_selected_rules_exactly, rules_without_v2_counterpart, migrate_preserves_ignore_only, migrate_ignore_only_order_independent; for the repaired code migrate_fixed_preserves_selected_rules, /repo 2afb6fd and fd016ed) and compared with the real Migrator on every id and category of every version",
+ "C17": " Round 5: PRESENCE of the optional response fields is explicit in the model (Option): a present-but-empty insertion point is not an insertion and does not bypass the duplicate check, a nameless file continues the previous one, nothing in the pipeline looks at presence (Props/C17Presence; whole-pipeline runGenerate incl. the protoplugin normalisation); requests stay closed with unused imports",
+ "C20": " Round 4: import-PATH family (41 import kinds x planted position x input form through the binary and through the real BuildImage / ModuleDeps): an unresolvable import is annotated with status 100 whatever the cause (unresolvable_import_is_annotated, import_fate_of_path)",
+}
+NOTE_SUB = {
+ "C01": ("trusted: Lean kernel, Graph/Targeting models", "1 recorded finding (a selection value below a regular file fails on disk buckets); trusted: Lean kernel, Graph/Targeting/WorkspaceTargeting models"),
+ "C02": ("one recorded finding (image input with permuted --path)", "3 recorded findings (image input with permuted --path; duplicate-symbol blame and import-cycle annotations, both decided by protocompile's scheduler), 2 repaired (6d16415, 738ddcb)"),
+ "C06": ("3 recorded findings (group field, second extend block, leak from the first extend block)", "4 recorded findings (group field, second extend block, leak from the first extend block, unknown ignore_only key without paths)"),
+ "C07": ("15 recorded comment/idempotence corner cases are excluded by construct-specific class", "4 recorded comment corner cases remain (11 repaired), each excluded by a construct-specific class"),
+ "C10": ("Partial: 'one pipeline succeeds iff the other does' is correspondence-only;", "Partial: 'one pipeline succeeds iff the other does' is correspondence-only; 1 recorded finding (module name equal to another module's directory path);"),
+ "C12": ("5 recorded findings;", "3 recorded findings (4 repaired);"),
+ "C15": ("one recorded finding (a producer failure", "2 recorded findings (a producer failure"),
+ "C16": ("17 recorded findings (buf.gen.yaml writer omissions, migration) are excluded by class", "10 recorded findings (buf.gen.yaml writer omissions, migration roots split / category-keyed ignore_only) are excluded by class; 9 migration defects repaired"),
+ "C17": (".jar/.zip outs, type filters, remote plugins, cleaner not modelled", "remote plugins and the cleaner not modelled (per-plugin type filters: C12)"),
+}
+
+
 def main():
     p = "/verif/MANIFEST.json"
     m = json.load(open(p))
     n = 0
     for c in m["checks"]:
         t = T.get(c["property_id"])
+        if t:
+            pid = c["property_id"]
+            a, b = t
+            if pid in NOTE_SUB:
+                old, new = NOTE_SUB[pid]
+                assert old in b, (pid, old)
+                b = b.replace(old, new)
+            t = (a + ADD.get(pid, ""), b)
         if t:
             c["level_claimed"]["text"] = t[0]
             c["level_note"] = t[1]
